@@ -457,6 +457,30 @@ def loop_concurrent(rng, lanes, per):
     return s.done()
 
 
+def big_values(rng, kind, **kw):
+    """a few envelopes well above the sizes anybody tests with (2, 5 and 9 MiB bodies) between ordinary ones"""
+    s = Script(kind, '%s big values' % kind, **kw)
+    g = ValGen(rng, big_every=1000)
+    ids = []
+    if kind == 'httploop':
+        s.ctl('dial', end='A', addr='B')
+        ids += [s.op('w', end='A', addr='B', v=hval(g, 'srcA', small=True)), s.op('r', end='B', addr='A')]
+        s.wait(ids)
+        ids = []
+    for i, bl in enumerate((2 * MIB, 300, 5 * MIB + 17, 9 * MIB)):
+        v = hval(g, 'srcA', small=True) if kind == 'httploop' else g.val(need_header=True, small=True)
+        v['bl'] = bl
+        if kind == 'httploop':
+            ids.append(s.op('r', end='B', addr='A'))
+            ids.append(s.op('w', end='A', addr='B', v=v))
+        else:
+            ids.append(s.op('r', end='b'))
+            ids.append(s.op('w', end='a', v=v))
+    s.wait(ids, ms=20000)
+    s.ctl('q')
+    return s.done()
+
+
 def loop_ctx(rng, variant):
     s = Script('httploop', 'httploop ctx %s' % variant, **(dict(timeout_s=10, interval_s=3) if variant in ('unreachable-after-timeout', 'blocked-write-timeout-cancel') else {}))
     g = ValGen(rng)
@@ -592,6 +616,8 @@ def generate(tier, rng):
         out.append(concurrent_writers(rng, 'websocket', 4, 8, 'compress=True', compress=True))
         out.append(concurrent_writers(rng, 'channel', 4, 8, 'cap=4', cap=4))
         out.append(loop_concurrent(rng, 3, 4))
+        out.append(big_values(rng, 'httploop'))
+        out.append(big_values(rng, 'websocket', compress=False))
         out.append(loop_concurrent(rng, 6, 6))
     # values: ~ per transport 120..300 (quick) / ~5000 (thorough)
     reps = 1 if quick else 22
